@@ -296,10 +296,16 @@ pub fn mutate(r: &mut Rng, text: &str) -> String {
             6 => {
                 // deep nesting
                 // (anthem's running time grows steeply with the nesting depth of some operators:
-                // 400 unary minus signs take about 30 s of CPU in the release build; the deepest
-                // level is therefore drawn rarely)
-                let d = if r.chance(1, 12) { 400 } else { [10, 60, 150][r.upto(3)] };
+                // 400 unary minus signs take about 30 s of CPU in the release build, minutes in
+                // the unoptimised one)
                 let open = ["(", "not ", "-", "-(", "not not ", "forall X "][r.upto(6)];
+                let mut d = if r.chance(1, 12) { 400 } else { [10, 60, 150][r.upto(3)] };
+                if open.starts_with('-') {
+                    // nested unary minus signs are the expensive ones (each level nests a
+                    // quantified subformula in the translation): kept shallow, so that a slow but
+                    // terminating run is never mistaken for a hang
+                    d = d.min(60);
+                }
                 toks.insert(i, open.repeat(d));
                 if open.ends_with('(') && r.chance(1, 2) {
                     let j = (i + 2).min(toks.len());
